@@ -67,7 +67,8 @@ func (r *ComDoc) writeSector(sector SecID, content []byte) error {
 
 // Mark a chain of sectors as free
 func freeSectors(sat []SecID, sector SecID) {
-	for {
+	// an empty stream has no chain at all (its first sector is ENDOFCHAIN)
+	for sector >= 0 {
 		nextSector := sat[sector]
 		sat[sector] = SecIDFree
 		if nextSector < 0 {
